@@ -344,14 +344,16 @@ structure RGInfo (Plan : Type) where
   plan : Plan
   budget : RowBudget
 
-/-- `RowGroupDecoderState` (`k` = `FilterInfo::next_predicate`, `req` = `DataRequest::ranges`,
-`chunks` = `DataRequest::column_chunks`); the predicate cache is not modelled -/
+/-- `RowGroupDecoderState` (`k` = `FilterInfo::next_predicate`, `chunks` =
+`DataRequest::column_chunks`).  `DataRequest::ranges` is not stored: it was computed by
+`DataRequestBuilder::build` from the plan and chunks that the `WaitingOn…` state still
+carries unchanged, so `ctlRequest` recomputes it.  The predicate cache is not modelled. -/
 inductive RGState (Plan Chunks : Type) where
   | start (info : RGInfo Plan)
   | filters (info : RGInfo Plan) (chunks : Chunks) (k : Nat)
-  | waitingOnFilterData (info : RGInfo Plan) (k : Nat) (req : List Range) (chunks : Chunks)
+  | waitingOnFilterData (info : RGInfo Plan) (k : Nat) (chunks : Chunks)
   | startData (info : RGInfo Plan) (chunks : Chunks)
-  | waitingOnData (info : RGInfo Plan) (req : List Range) (chunks : Chunks)
+  | waitingOnData (info : RGInfo Plan) (chunks : Chunks)
   | finished
 
 /-- `RowGroupFrontier` -/
@@ -439,8 +441,8 @@ def ctlStep (cfg : Cfg Plan Chunks GSel Batch) (m : Mode) (c : Ctl Plan Chunks G
         ({ c with filterAvail := true, rg := .finished,
                   frontier := { c.frontier with budget := info.budget } }, none)
       else
-        ({ c with rg := .waitingOnFilterData info k (cfg.filterRanges info.rgIdx k info.plan chunksHeld) chunksHeld }, none)
-    | .waitingOnFilterData info k _req chunksHeld =>
+        ({ c with rg := .waitingOnFilterData info k chunksHeld }, none)
+    | .waitingOnFilterData info k chunksHeld =>
       let r := cfg.evalPred info.rgIdx k info.budget info.plan chunksHeld chunks
       let info' := { info with plan := r.1 }
       if k ≥ cfg.numPreds then
@@ -456,9 +458,8 @@ def ctlStep (cfg : Cfg Plan Chunks GSel Batch) (m : Mode) (c : Ctl Plan Chunks G
         ({ c with rg := .finished, frontier := { c.frontier with budget := remaining } }, none)
       else
         let plan := cfg.budgetPlan info.budget info.plan info.rowCount
-        ({ c with rg := .waitingOnData { info with plan := plan, budget := remaining }
-                          (cfg.dataRanges info.rgIdx plan chunksHeld) chunksHeld }, none)
-    | .waitingOnData info _req chunksHeld =>
+        ({ c with rg := .waitingOnData { info with plan := plan, budget := remaining } chunksHeld }, none)
+    | .waitingOnData info chunksHeld =>
       let bs := cfg.mkReader info.rgIdx info.plan chunksHeld chunks
       let c' := { c with rg := .finished, frontier := { c.frontier with budget := info.budget } }
       -- `RowGroupBuildResult::Data` → `DecodingRowGroup`; the caller looks at the reader at once
@@ -469,18 +470,19 @@ def ctlStep (cfg : Cfg Plan Chunks GSel Batch) (m : Mode) (c : Ctl Plan Chunks G
         | b :: rest => ({ c' with decoding := some rest }, some (.batch b))
         | [] => (c', none)
 
-/-- the outstanding `DataRequest` of a control state -/
-def ctlRequest (c : Ctl Plan Chunks GSel Batch) : Option (List Range) :=
+/-- the outstanding `DataRequest` of a control state (`DataRequestBuilder::build` with the
+predicate's projection, resp. the output projection) -/
+def ctlRequest (cfg : Cfg Plan Chunks GSel Batch) (c : Ctl Plan Chunks GSel Batch) : Option (List Range) :=
   match c.decoding, c.rg with
-  | none, .waitingOnFilterData _ _ req _ => some req
-  | none, .waitingOnData _ req _ => some req
+  | none, .waitingOnFilterData info k chunks => some (cfg.filterRanges info.rgIdx k info.plan chunks)
+  | none, .waitingOnData info chunks => some (cfg.dataRanges info.rgIdx info.plan chunks)
   | _, _ => none
 
 def rgRank (p : Nat) : RGState Plan Chunks → Nat
   | .finished => 0
   | .waitingOnData .. => 1
   | .startData .. => 2
-  | .waitingOnFilterData _ k _ _ => 2 * (p - k) + 3
+  | .waitingOnFilterData _ k _ => 2 * (p - k) + 3
   | .filters _ _ k => 2 * (p - k) + 4
   | .start _ => 2 * p + 5
 
@@ -540,13 +542,13 @@ theorem ctlStep_rank (cfg : Cfg Plan Chunks GSel Batch) (m : Mode) (c : Ctl Plan
       split <;> (simp only [ctlRank, hd, hrg, rgRank]; omega)
     · rename_i info ch k hrg
       split <;> (simp only [ctlRank, hd, hrg, rgRank]; omega)
-    · rename_i info k req ch hrg
+    · rename_i info k ch hrg
       dsimp only
       split <;> (simp only [ctlRank, hd, hrg, rgRank]; omega)
     · rename_i info ch hrg
       dsimp only
       split <;> (simp only [ctlRank, hd, hrg, rgRank]; omega)
-    · rename_i info req ch hrg
+    · rename_i info ch hrg
       dsimp only
       split
       · simp [hd, hrg] at h
@@ -556,7 +558,7 @@ theorem ctlStep_rank (cfg : Cfg Plan Chunks GSel Batch) (m : Mode) (c : Ctl Plan
 
 /-- the push decoder's control side as a reader program -/
 def rgProg (cfg : Cfg Plan Chunks GSel Batch) : Prog (Ctl Plan Chunks GSel Batch) Batch where
-  request := ctlRequest
+  request := ctlRequest cfg
   step := ctlStep cfg
   rank := ctlRank cfg
   rank_step := ctlStep_rank cfg
